@@ -318,7 +318,7 @@ def _newton_cg(
         # potential in Newton thus live on comparable energy scales. Hence, the
         # energy in a Newton minimization can be used to set the CG energy
         # convergence criterion.
-        if old_fval and energy_reduction_factor:
+        if old_fval is not None and energy_reduction_factor:
             cg_absdelta = energy_reduction_factor * (old_fval - energy)
         else:
             cg_absdelta = None if absdelta is None else absdelta / 100.0
@@ -480,7 +480,7 @@ def _static_newton_cg(
         nfev, njev, nhev = v["nfev"], v["njev"], v["nhev"]
 
         cg_absdelta = 0.0 if absdelta is None else absdelta / 100.0
-        if energy_reduction_factor is not None:
+        if energy_reduction_factor:
             cg_absdelta = jnp.where(
                 ~jnp.isinf(old_energy),
                 energy_reduction_factor * (old_energy - energy),
